@@ -99,7 +99,8 @@ def gen_expr(rng, big=False):
             for _ in range(rng.choice([1, 1, 2, 3])):
                 lo = rng.choice([0, 1, 2, 3, 4, 5, 8, 9, 10, 98, 99]) if not big else rng.choice([33554430, 33554431, 33554432])
                 hi = lo + rng.choice([0, 0, 1, 2, 3, 5])
-                w = len(str(lo)) + rng.choice([0, 0, 0, 1, 2])
+                # zero-padded widths, now and then beyond the 20 digits of an unsigned long (name buffers sized by width)
+                w = len(str(lo)) + (rng.choice([0, 0, 0, 1, 2]) if rng.random() < 0.94 else rng.choice([19, 21, 24, 30]))
                 los = str(lo).zfill(w)
                 rs.append(los + ("-%d" % hi if hi > lo or rng.random() < 0.3 else ""))
                 hs += [str(v).zfill(w) for v in range(lo, hi + 1)]
@@ -520,7 +521,9 @@ def run(ctx):
                    "uniq/sort/hosts and it_new/it_next/it_remove/it_reset/it_free (up to 3 live iterators), expressions "
                    "with mixed widths, overlapping and adjacent ranges, single hosts, suffix words, numeric tails around "
                    "2^25; profiles keep the risky combinations apart (own removal only / shift / pop / delete under an "
-                   "iterator / push at the end / several iterators / free mix); non-trivial = at least one mutation while "
+                   "iterator / push at the end / several iterators / free mix); plus, on every run, EVERY ordered triple over a "
+                   "16-entry alphabet (find / nth / delete_nth / delete_host / shift / pop / push / remove through an iterator / "
+                   "uniq) on two small lists, one of them made of all-digit names and an empty prefix; non-trivial = at least one mutation while "
                    "an iterator is live, or a find/delete/uniq on a list with >= 3 hosts; distinct = distinct history text"}
     dist = {"ops": 0, "profiles": {}, "ub-predicted": 0, "crash": 0}
     if hl.build():
@@ -538,6 +541,12 @@ def run(ctx):
                 p = rng.choice(profiles)
                 seqs.append(gen_history(rng, rng.randrange(4, 28), "free" if p == "noiter" else p))
                 profs.append(p)
+            # EXHAUSTIVE CORE (every run): every ordered triple of operations over a concrete alphabet on small lists -
+            # state a call leaves behind for a later one (a cached position, a stale pointer, a width rewritten in place)
+            # shows in some triple, whatever the random histories do
+            for s in triples():
+                seqs.append(s)
+                profs.append("triples")
             if ctx.tier == "thorough":
                 for s in exhaustive_small():
                     seqs.append(s)
@@ -728,6 +737,32 @@ def load_corpus():
             if cur:
                 out.append(cur)
     return out
+
+
+TRIPLE_LISTS = [
+    # three range records: lookups land in a later record while an earlier one shrinks in place
+    ("a[1-3],b[1-3],c[1-2]",
+     [["find b2"], ["find c1"], ["find a3"], ["nth 4"], ["delete_nth 0"], ["delete_nth 3"], ["delete_nth 6"],
+      ["delete_host a1"], ["delete_host b3"], ["delete_host c2"], ["shift"], ["pop"], ["push d1"], ["push c3"],
+      ["it_new", "it_next 0", "it_remove 0", "it_free 0"],                                     # remove the first host
+      ["it_new", "it_next 0", "it_next 0", "it_next 0", "it_remove 0", "it_free 0"]]),         # remove the last host of a record
+    # all-digit names, an empty prefix, a zero-padded twin, a repeated name
+    ("7,[8-12],x1,007,7",
+     [["find 10"], ["find 7"], ["find 12"], ["find 007"], ["nth 2"], ["delete_nth 1"], ["delete_nth 4"],
+      ["delete_host 10"], ["delete_host 7"], ["delete_host 8"], ["shift"], ["pop"], ["push 13"], ["push [5-6]"],
+      ["uniq"], ["it_new", "it_next 0", "it_next 0", "it_remove 0", "it_free 0"]]),
+]
+
+
+def triples():
+    """every ordered triple of alphabet entries (an entry = one operation or one iterator episode) on each small list;
+    the list and its count are read back after every entry"""
+    for base, alpha in TRIPLE_LISTS:
+        for combo in itertools.product(range(len(alpha)), repeat=3):
+            t = ["new", "push " + base]
+            for k in combo:
+                t += alpha[k] + ["count"]
+            yield t + ["hosts 100"]
 
 
 def exhaustive_small():
